@@ -247,4 +247,195 @@ theorem listing_entry_roundtrip (k : Key) (hk : KeyOK k) (v : Str) (hv : v.isEmp
   have hn : (md5Name = dos2unixName) = False := by simp [md5Name, dos2unixName, kMd5]
   simp [hm, hn, splitC_joinC k hk]
 
+/-- the metadata `from_list` reconstructs from what `as_list(with_meta=True)` wrote for an entry -/
+theorem fromDict_listing_rest (m : Meta) (v rp : Str) :
+    Meta.fromDict ((((Meta.toDict m).set md5Name (.str v)).set relpathKey (.str rp)).erase relpathKey) =
+      { Meta.norm m with md5 := some v } := by
+  have key : ∀ key : Str, key ≠ relpathKey →
+      AList.lookup ((((Meta.toDict m).set md5Name (.str v)).set relpathKey (.str rp)).erase relpathKey) key =
+        if md5Name = key then some (.str v) else AList.lookup (Meta.toDict m) key := by
+    intro key h
+    rw [AList.lookup_erase, AList.lookup_set, AList.lookup_set]
+    have h' : ¬ relpathKey = key := fun e => h e.symm
+    simp [h']
+  have gb : ∀ key : Str, key ≠ relpathKey → md5Name ≠ key →
+      getBool ((((Meta.toDict m).set md5Name (.str v)).set relpathKey (.str rp)).erase relpathKey) key = getBool (Meta.toDict m) key := by
+    intro k h1 h2; unfold getBool; rw [key k h1]; simp [h2]
+  have gn : ∀ key : Str, key ≠ relpathKey → md5Name ≠ key →
+      getNat ((((Meta.toDict m).set md5Name (.str v)).set relpathKey (.str rp)).erase relpathKey) key = getNat (Meta.toDict m) key := by
+    intro k h1 h2; unfold getNat; rw [key k h1]; simp [h2]
+  have gs : ∀ key : Str, key ≠ relpathKey → md5Name ≠ key →
+      getStr ((((Meta.toDict m).set md5Name (.str v)).set relpathKey (.str rp)).erase relpathKey) key = getStr (Meta.toDict m) key := by
+    intro k h1 h2; unfold getStr; rw [key k h1]; simp [h2]
+  have gm : getStr ((((Meta.toDict m).set md5Name (.str v)).set relpathKey (.str rp)).erase relpathKey) kMd5 = some v := by
+    unfold getStr; rw [key kMd5 (by decide)]; simp [md5Name]
+  unfold Meta.fromDict
+  rw [gb kIsdir (by decide) (by decide), gb kIsexec (by decide) (by decide), gn kSize (by decide) (by decide),
+    gn kNfiles (by decide) (by decide), gn kInode (by decide) (by decide), gn kMtime (by decide) (by decide),
+    gs kVersionId (by decide) (by decide), gs kEtag (by decide) (by decide), gs kChecksum (by decide) (by decide),
+    gs kRemote (by decide) (by decide), gm]
+  simp only [get_isdir, get_isexec, get_size, get_nfiles, get_inode, get_mtime, get_versionId, get_etag, get_checksum, get_remote]
+  rfl
+
+/-- **listing round trip (one entry, written with metadata)**: `from_list` reads back the key, the hash, and the
+    serialised metadata with the hash mirrored into its `md5` field -/
+theorem listing_entry_roundtrip_meta (k : Key) (hk : KeyOK k) (v : Str) (hv : v.isEmpty = false) (m : Meta) :
+    entryOfDict (some md5Name) (entryDict true (k, (some m, some { name := some md5Name, value := some v }))) =
+      some (k, (some { Meta.norm m with md5 := some v }, some { name := some md5Name, value := some v })) := by
+  have hd : entryDict true (k, (some m, some { name := some md5Name, value := some v })) =
+      ((Meta.toDict m).set md5Name (.str v)).set relpathKey (.str (joinC k)) := by
+    simp only [entryDict, hiToDict, HashInfo.truthy, hv, Bool.not_false, Bool.not_true, Bool.false_eq_true, if_false,
+      HashInfo.toDict]
+    have h1 : (some md5Name = some dos2unixName) = False := by simp [md5Name, dos2unixName, kMd5]
+    have h2 : md5Name.isEmpty = false := by decide
+    simp [h1, h2, hv]
+  rw [hd]
+  have hl : AList.lookup (((Meta.toDict m).set md5Name (.str v)).set relpathKey (.str (joinC k))) relpathKey =
+      some (.str (joinC k)) := by rw [AList.lookup_set]; simp
+  simp only [entryOfDict, hl, fromDict_listing_rest]
+  have hn : (md5Name = dos2unixName) = False := by simp [md5Name, dos2unixName, kMd5]
+  simp [hn, splitC_joinC k hk]
+
+/-! ### the whole listing -/
+
+/-- what `from_list` makes of an entry `as_list` wrote: the hash, and as metadata either the serialised fields
+    (written with metadata) or nothing, with the hash value mirrored into `md5` -/
+def readBack (w : Bool) (tv : TVal) : TVal :=
+  (some (match w, tv.1 with
+    | true, some m => { Meta.norm m with md5 := tv.2.bind (·.value) }
+    | _, _ => { md5 := tv.2.bind (·.value) }), tv.2)
+
+/-- entries a directory object holds: a well-formed key and a non-empty md5 value -/
+def GoodE (e : Key × TVal) : Prop :=
+  KeyOK e.1 ∧ ∃ v : Str, v.isEmpty = false ∧ e.2.2 = some { name := some md5Name, value := some v }
+
+theorem entry_readBack (w : Bool) (e : Key × TVal) (h : GoodE e) :
+    entryOfDict (some md5Name) (entryDict w e) = some (e.1, readBack w e.2) := by
+  obtain ⟨k, m, hi⟩ := e
+  obtain ⟨hk, v, hv, hh⟩ := h
+  simp only at hk hh
+  subst hh
+  cases w with
+  | false => simpa [readBack] using listing_entry_roundtrip k hk v hv m
+  | true =>
+    cases m with
+    | some m => simpa [readBack] using listing_entry_roundtrip_meta k hk v hv m
+    | none =>
+      have : entryDict true (k, ((none : Option Meta), some ({ name := some md5Name, value := some v } : HashInfo))) =
+          entryDict false (k, (none, some { name := some md5Name, value := some v })) := by simp [entryDict]
+      rw [this]
+      simpa [readBack] using listing_entry_roundtrip k hk v hv none
+
+theorem foldlM_parse (hn : Option Str) (g : JObj → Key × TVal) : ∀ (ds : List JObj) (t0 : Tree),
+    (∀ d ∈ ds, entryOfDict hn d = some (g d)) →
+    ds.foldlM (fun t d => (entryOfDict hn d).map fun e => AList.set t e.1 e.2) t0 =
+      some (ds.foldl (fun t d => AList.set t (g d).1 (g d).2) t0) := by
+  intro ds
+  induction ds with
+  | nil => intro t0 _; rfl
+  | cons d r ih =>
+    intro t0 h
+    simp only [List.foldlM_cons, List.foldl_cons, h d (by simp), Option.map_some, Option.bind_eq_bind, Option.bind_some]
+    exact ih _ (fun x hx => h x (List.mem_cons_of_mem _ hx))
+
+theorem lookup_foldl_set_nodup : ∀ (es : List (Key × TVal)) (t0 : Tree) (k : Key), (AList.keys es).Nodup →
+    AList.lookup (es.foldl (fun t e => AList.set t e.1 e.2) t0) k =
+      match AList.lookup es k with
+      | some v => some v
+      | none => AList.lookup t0 k := by
+  intro es
+  induction es with
+  | nil => intro t0 k _; rfl
+  | cons c r ih =>
+    intro t0 k hnd
+    obtain ⟨ck, cv⟩ := c
+    have hnd' : (AList.keys r).Nodup := (List.nodup_cons.mp hnd).2
+    have hnot : ck ∉ AList.keys r := (List.nodup_cons.mp hnd).1
+    simp only [List.foldl_cons]
+    rw [ih _ k hnd', AList.lookup_cons]
+    by_cases e : ck = k
+    · subst e
+      have : AList.lookup r ck = none := (AList.lookup_eq_none_iff r ck).mpr hnot
+      simp [this, AList.lookup_set]
+    · simp only [e, if_false, AList.lookup_set]
+
+/-- **C20 (directory listing).** For every directory object whose keys are well-formed and distinct and whose
+    entries carry non-empty md5 values, reading back what `as_list` wrote — with or without metadata, in
+    the sorted order `as_list` uses — succeeds and gives a tree that binds exactly the same keys, each to its
+    hash and to the metadata that is serialised -/
+theorem listing_roundtrip (w : Bool) (t : Tree) (hwf : AList.WF t) (hg : ∀ e ∈ t, GoodE e) :
+    ∃ t', fromList (some md5Name) (asList w t) = some t' ∧
+      ∀ k, AList.lookup t' k = (AList.lookup t k).map (readBack w) := by
+  -- the parse of each written dict
+  let g : JObj → Key × TVal := fun d => (entryOfDict (some md5Name) d).getD ([], (none, none))
+  have hperm : List.Perm (asList w t) (t.map (entryDict w)) := by
+    unfold asList
+    have h1 := List.mergeSort_perm (t.map fun e => (joinC e.1, entryDict w e)) (fun a b => charsLe a.1 b.1)
+    have h2 := h1.map (·.2)
+    simpa [List.map_map, Function.comp_def] using h2
+  have hmem : ∀ d, d ∈ asList w t ↔ ∃ e ∈ t, entryDict w e = d := by
+    intro d; rw [hperm.mem_iff, List.mem_map]
+  have hparse : ∀ d ∈ asList w t, entryOfDict (some md5Name) d = some (g d) := by
+    intro d hd
+    obtain ⟨e, he, rfl⟩ := (hmem d).mp hd
+    simp [g, entry_readBack w e (hg e he)]
+  have hge : ∀ e ∈ t, g (entryDict w e) = (e.1, readBack w e.2) := by
+    intro e he; simp [g, entry_readBack w e (hg e he)]
+  refine ⟨(asList w t).foldl (fun t d => AList.set t (g d).1 (g d).2) [], ?_, ?_⟩
+  · exact foldlM_parse (some md5Name) g (asList w t) [] hparse
+  · intro k
+    have hfold : (asList w t).foldl (fun t d => AList.set t (g d).1 (g d).2) ([] : Tree) =
+        ((asList w t).map g).foldl (fun t e => AList.set t e.1 e.2) [] := by rw [List.foldl_map]
+    have hkeys : List.Perm (AList.keys ((asList w t).map g)) (AList.keys t) := by
+      unfold AList.keys
+      have := (hperm.map g).map (·.1)
+      refine this.trans (List.Perm.of_eq ?_)
+      rw [List.map_map, List.map_map]
+      exact List.map_congr_left (fun e he => by simp [hge e he])
+    have hnd : (AList.keys ((asList w t).map g)).Nodup := hkeys.nodup_iff.mpr hwf
+    rw [hfold, lookup_foldl_set_nodup _ [] k hnd]
+    have hmemg : ∀ kv, kv ∈ (asList w t).map g ↔ ∃ e ∈ t, (e.1, readBack w e.2) = kv := by
+      intro kv
+      rw [(hperm.map g).mem_iff, List.map_map, List.mem_map]
+      constructor
+      · rintro ⟨e, he, rfl⟩; exact ⟨e, he, (hge e he).symm⟩
+      · rintro ⟨e, he, rfl⟩; exact ⟨e, he, hge e he⟩
+    apply Option.ext
+    intro v
+    constructor
+    · intro h
+      have h' : AList.lookup ((asList w t).map g) k = some v := by
+        cases hl : AList.lookup ((asList w t).map g) k with
+        | none => rw [hl] at h; simp at h
+        | some v' => rw [hl] at h; simpa using h
+      obtain ⟨e, he, heq⟩ := (hmemg (k, v)).mp (AList.mem_of_lookup _ k v h')
+      have hk : e.1 = k := congrArg Prod.fst heq
+      have hv : readBack w e.2 = v := congrArg Prod.snd heq
+      have := AList.lookup_of_mem t hwf e.1 e.2 he
+      rw [← hk, this]; simp [hv]
+    · intro h
+      cases hl : AList.lookup t k with
+      | none => rw [hl] at h; simp at h
+      | some tv =>
+        rw [hl] at h
+        simp only [Option.map_some, Option.some.injEq] at h
+        have hm := AList.mem_of_lookup t k tv hl
+        have : (k, v) ∈ (asList w t).map g := (hmemg (k, v)).mpr ⟨(k, tv), hm, by simp [h]⟩
+        rw [AList.lookup_of_mem _ hnd k v this]
+
+/-! non-vacuity: a two-entry directory object (one entry with metadata, one nested key) meets the hypotheses -/
+def exTree : Tree :=
+  [([['s', 'u', 'b'], ['b']], (some { size := some 3, isexec := true, etag := some [] }, some { name := some md5Name, value := some ['1', '2'] })),
+   ([['a']], (none, some { name := some md5Name, value := some ['3', '4'] }))]
+
+example : AList.WF exTree := by decide
+example : ∀ e ∈ exTree, GoodE e := by
+  intro e he
+  simp only [exTree, List.mem_cons, List.mem_nil_iff, or_false] at he
+  rcases he with rfl | rfl
+  · exact ⟨by decide, ['1', '2'], rfl, rfl⟩
+  · exact ⟨by decide, ['3', '4'], rfl, rfl⟩
+example : readBack true (some { size := some 3, isexec := true, etag := some [] }, some { name := some md5Name, value := some ['1', '2'] }) =
+    (some { size := some 3, isexec := true, md5 := some ['1', '2'] }, some { name := some md5Name, value := some ['1', '2'] }) := by decide
+
 end DvcData.Tree
